@@ -256,6 +256,7 @@ def read_source():
     for name, c in classes.items():
         node, src = c['node'], c['src']
         funcs = {}
+        texts = {}
         meths = {}
         for m in node.body:
             if isinstance(m, ast.FunctionDef):
@@ -264,7 +265,9 @@ def read_source():
                     if [a.arg for a in m.args.args] != ['self', 'value'] or m.args.vararg or m.args.kwarg \
                             or m.args.defaults or m.decorator_list:
                         raise ExtractError('%s.%s: unexpected signature' % (name, m.name))
-                    funcs[m.name] = to_expr(_single_return(m), src, c['pi'])
+                    ret = _single_return(m)
+                    funcs[m.name] = to_expr(ret, src, c['pi'])
+                    texts[m.name] = ' '.join((ast.get_source_segment(src, ret) or '').split())
         lo = _bound(_class_const(node, '_min'), src, name + '._min')
         hi = _bound(_class_const(node, '_max'), src, name + '._max')
         if c['parent'] == 'DataTypeBase':
@@ -281,7 +284,7 @@ def read_source():
                     raise ExtractError('%s.%s not found' % (name, req))
             bases[name] = {'name': name, 'file': c['file'], 'units': units, 'si': si, 'ip': ip,
                            'si_is_str': sis, 'ip_is_str': ips,
-                           'min': lo or ('neg',), 'max': hi or ('pos',), 'funcs': funcs,
+                           'min': lo or ('neg',), 'max': hi or ('pos',), 'funcs': funcs, 'texts': texts,
                            'base': _base_literal(meths['to_unit'], name), 'pi': c['pi'],
                            'lines': {k: v.lineno for k, v in meths.items()}}
         else:
@@ -429,7 +432,8 @@ def gen_units(bases, subs):
         for m in sorted(b['funcs'], key=lambda k: b['lines'][k]):
             e = b['funcs'][m]
             args = '(pi value : Rat)' if b['pi'] else '(value : Rat)'
-            out.append('/-- `%s.%s` (%s line %d) -/' % (name, m, b['file'], b['lines'][m]))
+            out.append('/-- `%s.%s` (%s line %d): `return %s` -/'
+                       % (name, m, b['file'], b['lines'][m], b['texts'][m].replace('-/', '- /')))
             out.append('def %s %s : Rat := %s' % (ident(m[1:]), args, lean_expr(e)))
         out.append('end %s' % name)
         out.append('')
@@ -569,15 +573,46 @@ def gen_proofs(bases):
     return texts
 
 
+def gen_sym(bases):
+    """Gen/UnitsSym.lean: the formulas that mention PI, once more over an arbitrary field `K` with `pi : K`
+    (same expression printer, other carrier), each linked to its `Rat` version by `rfl`."""
+    out = [HEADER % ('units.py', 'ladybug/datatype/*.py'),
+           'import Mathlib.Algebra.Field.Rat', 'import Ladybug.Gen.Units', '',
+           'namespace Gen.UnitsSym', '']
+    for name in sorted(n for n in bases if bases[n]['pi']):
+        b = bases[name]
+        out.append('namespace %s' % name)
+        for m in sorted(b['funcs'], key=lambda k: b['lines'][k]):
+            e = b['funcs'][m]
+            out.append('/-- `%s.%s` over any field. -/' % (name, m))
+            out.append('def %s {K : Type} [Field K] (pi value : K) : K := %s'
+                       % (ident(m[1:]), lean_expr(e, 'K')))
+        out.append('end %s' % name)
+        for m in sorted(b['funcs'], key=lambda k: b['lines'][k]):
+            out.append('/-- The executable `Rat` formula is the field formula at `K = Rat`. -/')
+            out.append('theorem C06_sym_%s_%s (pi x : Rat) : Gen.Units.%s pi x = %s.%s pi x := rfl'
+                       % (name, ident(m[1:]), fname(name, m), name, ident(m[1:])))
+        out.append('')
+    out.append('end Gen.UnitsSym')
+    out.append('')
+    return '\n'.join(out)
+
+
 def extract(write=True):
-    bases, subs = read_source()
-    complete_with_real(bases, subs)
-    units_text = gen_units(bases, subs)
-    proofs = gen_proofs(bases)
+    try:
+        bases, subs = read_source()
+        complete_with_real(bases, subs)
+        units_text = gen_units(bases, subs)
+        proofs = gen_proofs(bases)
+    except ExtractError:
+        raise
+    except Exception as e:      # an unforeseen source shape is a broken tie, not a crash of the check
+        raise ExtractError('unexpected source shape: %s: %s' % (type(e).__name__, e))
     if write:
         write_if_changed('Units', units_text)
         for k, t in enumerate(proofs):
             write_if_changed('UnitsProofs%d' % (k + 1), t)
+        write_if_changed('UnitsSym', gen_sym(bases))
     return {'bases': bases, 'subs': subs}
 
 
